@@ -146,4 +146,12 @@ theorem treeOfWbxml_header (main : List Lang) (f forced metaCs : Nat) (bs : Byte
         rw [(foldl_buildStep_lang main _ rest _ hrest).2]
         rfl
 
+/-- The default reader of `wbxml_tree_from_wbxml`. -/
+def pcfgOf (main : List Lang) (forced metaCs : Nat) : PCfg :=
+  { main := main, langForced := forced, metaCharset := metaCs }
+
+theorem charsets_ok (main : List Lang) (forced metaCs : Nat) (cs : Nat) (h : cs = 3 ∨ cs = 106) :
+    (pcfgOf main forced metaCs).charsets.contains cs = true := by
+  rcases h with rfl | rfl <;> simp [pcfgOf]
+
 end Wbxml.Lemmas.EncW
